@@ -17,7 +17,7 @@ META = dict(
                "stays readable. Simulated behaviours over graphs up to 4 (5) revisions with up to 3 actions are executed "
                "on real stacked branches and every step's projection is judged by the same TLA+ laws; exact equality of "
                "the local key sets with the model is checked as conformance.",
-    level_note="One level of stacking, 2a format (thorough adds a 1.9 stacked branch on a 1.9 fallback). Merges are "
+    level_note="One level of stacking, 2a format. Merges are "
                "set_parent_ids + commit. A branch tip needs a revno, so stacking / push / pull use revisions whose "
                "left-hand history does not end in a ghost. Trusted: bzrformats pack / index / groupcompress code as "
                "executed, TLC, the JSON bridge.",
@@ -160,7 +160,8 @@ class Fixture:
                 except Exception as e:
                     diff.append("error:%s" % type(e).__name__)
             o["fv"], o["read"], o["diff"] = fv, read, diff
-            o["check"] = fc.check_text(repo)
+            o["checkp"] = fc.check_problems(repo)
+            o["check"] = "; ".join(o["checkp"][:4]) or "ok"
         o["tip"] = fc.num(br.last_revision())
         try:
             # the tip as the user of this branch sees it (through bzr:// in remote mode)
@@ -235,12 +236,8 @@ def run(ctx):
     else:
         tlc.check(ctx, "StackingMC", cfg_text=cfg(3, 1, 3, 3, 2), label="MC graphs<=3 + ghost, 3 actions", timeout=3000)
         tlc.check(ctx, "StackingMC", cfg_text=cfg(4, 0, 2, 3, 1), label="MC graphs<=4, 3 actions", timeout=3000)
-    # anti-vacuity: one run that keeps going after each violated witness
-    res = tlc.run(ctx, "StackingMC", cfg_text=cfg(3, 0, 3, 2, 1, inv=WITNESSES), allow_violation=True, extra=("-continue",), workers=4, timeout=1500)
-    ctx.add_tlc(res, "witnesses")
-    for w in WITNESSES:
-        if "Invariant %s is violated" % w not in res["output"]:
-            ctx.machinery("vacuity guard: witness %s was not reached" % w)
+    for w in WITNESSES:      # anti-vacuity: states TLC must reach
+        tlc.check(ctx, "StackingMC", cfg_text=cfg(3, 0, 3, 2, 1, inv=(w,)), expect_violation=w, label="witness " + w, workers=4)
     # ---- E2: simulated behaviours replayed on real stacked branches
     maxrev, num = (4, 80) if ctx.quick else (5, 2000)
     behs, _ = tlc.simulate(ctx, "StackingMC", cfg_text=cfg(maxrev, 1, 0, 3, 2), num=num, depth=6, seed=ctx.seed,
@@ -251,10 +248,10 @@ def run(ctx):
         ctx.machinery("TLC produced only %d usable behaviours of %d" % (len(behs), num))
     jobs = []
     for bi, b in enumerate(behs):
-        fmt = "2a"
-        if not ctx.quick and bi % 10 == 9 and not any(fc.GHOST in ps for ps in lists(b[1][1]["h"]["P"])):
-            fmt = "1.9"
-        jobs.append((bi, fmt, bi % 2 == 1, "sprout" if bi % 4 < 2 else "set-url", b))
+        fmt = "2a"      # C08 quantifies over 2a stacked formats (pre-2a formats refuse commits to stacked branches)
+        # creation by set_stacked_on_url + pull moves a branch tip, which needs a revno (see MainlineOk in the spec)
+        ghostly = fc.mainline_has_ghost(lists(b[1][1]["h"]["P"]), b[2][1]["step"]["r"])
+        jobs.append((bi, fmt, bi % 2 == 1, "sprout" if bi % 4 < 2 or ghostly else "set-url", b))
     core.fork_map(ctx, replay, jobs)
     rows = ctx.collected
     if not rows:
@@ -264,10 +261,15 @@ def run(ctx):
              "commit / fetch / push / pull; alternately local and bzr://, created by sprout(stacked=True) or "
              "set_stacked_on_url; one row per step; distinct = (format, transport, creation, graph, split, calls)" % maxrev)
     ctx.cov["behaviours"] = len(behs)
-    slim = [{"c": r["c"], "impl": {k: v for k, v in r["impl"].items() if k != "detail"}, "spec": r["spec"]} for r in rows]
+    slim = [{"c": r["c"], "impl": {k: v for k, v in r["impl"].items() if k not in ("detail", "checkp")}, "spec": r["spec"]} for r in rows]
     by_id = {id(s): r for s, r in zip(slim, rows)}
     long = [r for r in rows if len(r["meta"]["calls"]) >= 4] or rows
     ctx.sample({"c": long[0]["c"], "meta": long[0]["meta"], "local": {k: long[0]["impl"].get(k) for k in ("lrevs", "linvs", "ltexts")}})
+    new_problems, before = {}, {}
+    for r in sorted(rows, key=lambda r: (r["meta"]["behaviour"], len(r["meta"]["calls"]))):
+        have = set(r["impl"].get("checkp", ()))
+        new_problems[id(r)] = sorted(have - before.get(r["meta"]["behaviour"], set()))
+        before[r["meta"]["behaviour"]] = have
     probes = selftest_rows(slim)
     expected = {id(p): law for p, law in probes}
     caught = set()
@@ -281,7 +283,14 @@ def run(ctx):
         last = m["calls"][-1]
         where = "%s%s:%s:%s" % (last[0], "-merge" if last[2] else "", "bzr" if m["remote"] else "local", m["format"])
         for law in failed:
-            ctx.violation("law:%s:%s" % (law, where),
+            sig = "law:%s:%s" % (law, where)
+            if law == "check":
+                # a problem stays in the repository: it is reported at the step that introduced it, by kind of problem
+                new = new_problems[id(row)]
+                if not new:
+                    continue
+                sig = "law:check:%s:%s%s" % ("+".join(sorted({p.split(":")[0] for p in new})), last[0], "-merge" if last[2] else "")
+            ctx.violation(sig,
                           "law %s fails after %s on a %s branch stacked on a base holding %s (graph %s): %s" % (
                               law, m["calls"], m["format"], m["base"], row["c"]["P"],
                               o.get("detail") or {k: o.get(k) for k in ("lrevs", "linvs", "ltexts", "read", "diff", "check", "tipread")}),
